@@ -987,6 +987,24 @@ func r40DecodeTotal(c *core.Ctx) {
 			}
 		}
 		c.Check(R, "id-parse-error-returned/tms20.unmarshalTileMatrices", f.Decl.Pos(), okc, "tile matrix ids parsed with strconv and the error is returned", "tile matrix ids are not parsed as integers with the parse error returned")
+		// ids are decimal integers for the reader and the writer alike: base 0 accepts 0x1f, 0b11, 1_000 and reads
+		// "010" as 8 (two ids, one key), and the encoder's sort would no longer order what the decoder keyed
+		nbase, badBase := 0, ""
+		for _, ff := range c.P.Funcs {
+			if ff.Decl == nil || ff.Decl.Body == nil || ff.Pkg == nil || ff.Pkg != f.Pkg {
+				continue
+			}
+			for _, call := range core.CallsIn(ff.Pkg.TypesInfo, ff.Decl, "strconv.ParseInt", "strconv.ParseUint") {
+				if len(call.Args) != 3 {
+					continue
+				}
+				nbase++
+				if k, isConst := core.ConstInt(ff.Pkg.TypesInfo, call.Args[1]); !isConst || k != 10 {
+					badBase += fmt.Sprintf("%s @%s base %s; ", ff.Name, c.P.Pos(call.Pos()), core.ExprStr(call.Args[1]))
+				}
+			}
+		}
+		c.Check(R, "ids-and-codes-parsed-as-decimal/tms20", f.Decl.Pos(), badBase == "", fmt.Sprintf("%d ParseInt/ParseUint calls in tms20, all with the constant base 10", nbase), "an id or CRS code of a tile matrix set is parsed with a base other than the constant 10 (prefixes, underscores and leading-zero octal are then accepted, two spellings share a key, reader and writer disagree): "+badBase)
 	}
 	// (g) decode targets are fresh per element: a value decoded into inside a loop is allocated inside that loop
 	// (UnmarshalJSONFromMap/marshmallow only assign keys that are present, a reused target keeps stale fields
